@@ -30,6 +30,8 @@ static uint64_t pool_evstart[MAXPOOL][MAXP];   /* holdings when the current even
 static double t_before;
 static uint32_t main_csr;
 static bool cond_observes[MAXCOND][MAXGUARD];
+static void wk_reset(void);
+static void wk_return(proc *pr, int64_t ret);
 static int last_runner;          /* process that ran during the current event, -1 none */
 static uint64_t ev_seq;          /* W.seq when the current event began */
 static int64_t prio_ref[MAXP];   /* priorities at the latest of {event start, pool-preempt call in this event} */
@@ -65,6 +67,7 @@ void mon_reset(void)
     memset(evalcount, 0, sizeof evalcount);
     memset(ngbefore, 0, sizeof ngbefore);
     memset(cond_observes, 0, sizeof cond_observes);
+    wk_reset();
     memset(rec_cand, 0, sizeof rec_cand);
     main_csr = _mm_getcsr() & ~0x3fu;
 }
@@ -401,6 +404,7 @@ void mon_call_ret(proc *pr, int64_t ret)
         kill_call_causes(pr, CK_GCANCEL);
         break;
     case OP_CWAIT:
+        wk_return(pr, ret);
         if (ret == CMB_PROCESS_SUCCESS) {
             if (!(pr->cond_true_seen && pr->cond_true_time == now))
                 viol("C13", "success-without-true-evaluation", "process %d: condition wait returned success at t=%g without a true evaluation of its predicate at that time", pr->id, now);
@@ -412,6 +416,52 @@ void mon_call_ret(proc *pr, int64_t ret)
     }
 }
 
+/* ------------------------------------------------------------------ C06 for conditions: order among the waiters one signal wakes
+ * One pass of the library over a condition's waiters (an explicit or a forwarded signal) is recognised as a maximal run of
+ * predicate evaluations for that condition with no harness step in between and no waiter evaluated twice.  The waiters it finds
+ * satisfied are woken "by the same signal"; those that then resume with success in this instant must do so by rank
+ * (priority, then waiting-since), unless a priority was changed in between. */
+typedef struct { bool valid, returned, clean; uint64_t batch; int64_t prio; double entry, t; uint32_t prio_changes; } wakerec;
+static wakerec wk[MAXP];
+static uint64_t wk_batch, wk_activity; static int wk_cond = -1; static bool wk_seen[MAXP];
+static void wk_reset(void) { memset(wk, 0, sizeof wk); memset(wk_seen, 0, sizeof wk_seen); wk_batch = 0; wk_cond = -1; wk_activity = 0; g_harness_activity = 0; }
+static void wk_eval(proc *pr, int c, bool result)
+{
+    if (c != wk_cond || g_harness_activity != wk_activity || wk_seen[pr->id]) {
+        wk_batch++; wk_cond = c; wk_activity = g_harness_activity; memset(wk_seen, 0, sizeof wk_seen);
+    }
+    wk_seen[pr->id] = true;
+    wakerec *r = &wk[pr->id];
+    r->valid = false;
+    if (!result || c < 0 || c >= W.ncond) return;
+    const struct cmi_hashheap *hp = &W.cond[c]->guard.priority_queue;
+    const uint64_t key = (uint64_t)(uintptr_t)pr->pp;
+    if (!cmi_hashheap_is_enqueued(hp, key)) return;
+    r->valid = true; r->returned = false; r->clean = true; r->batch = wk_batch; r->prio = pr->pp->priority; r->entry = cmi_hashheap_dkey(hp, key);
+    r->t = tnow(); r->prio_changes = pr->prio_changes;
+}
+static void wk_return(proc *pr, int64_t ret)
+{
+    wakerec *r = &wk[pr->id];
+    if (!r->valid) return;
+    if (ret != CMB_PROCESS_SUCCESS || r->t != tnow()) { r->valid = false; return; }
+    r->clean = (pr->prio_changes == r->prio_changes);
+    int nsame = 0;
+    for (int y = 0; y < W.np; y++) {
+        const wakerec *o = &wk[y];
+        if (y == pr->id || !o->valid || o->batch != r->batch) continue;
+        nsame++;
+        if (!o->returned || !o->clean || !r->clean || o->t != r->t) continue;
+        /* y resumed before pr: pr must not rank strictly before y */
+        if (r->prio > o->prio || (r->prio == o->prio && r->entry < o->entry)) {
+            viol("C06", "lower-ranked-served-first/condition", "condition %d: one signal at t=%g woke process %d (priority %" PRId64 ", waiting since %g) and process %d (priority %" PRId64 ", waiting since %g); %d resumed first",
+                 pr->obj, r->t, pr->id, r->prio, r->entry, y, o->prio, o->entry, y);
+        } else PROBE("c06.condition_wake_order_compared");
+    }
+    if (nsame) PROBE("c06.condition_signal_woke_several");
+    r->returned = true;
+}
+
 /* ------------------------------------------------------------------ C13 evaluation log */
 static bool in_explicit; static int explicit_cond; static int expl_n; static int expl_pid[MAXGENT]; static int expl_evals[MAXGENT]; static bool expl_res[MAXGENT];
 void mon_pred_eval(int pid, const struct cmb_process *prc, bool result)
@@ -420,6 +470,7 @@ void mon_pred_eval(int pid, const struct cmb_process *prc, bool result)
     if (prc != pr->pp) viol("C13", "predicate-wrong-process", "predicate of process %d evaluated with another process pointer", pid);
     if (result) { pr->cond_true_seen = true; pr->cond_true_time = tnow(); }
     evalcount[pid]++;
+    wk_eval(pr, pr->op == OP_CWAIT ? pr->obj : -1, result);
     TR3("pred", pid, result, in_explicit);
     if (in_explicit) for (int i = 0; i < expl_n; i++) if (expl_pid[i] == pid) { expl_evals[i]++; expl_res[i] = result; }
     if (!in_explicit) PROBE("cond.forwarded_evaluation");
